@@ -5,7 +5,7 @@
    120-129 latex wrapper | 130-149 splitter | 150-159 round trip | 160-179 heap *)
 From Coq Require Import List NArith ZArith Bool.
 From BP Require Import Base.Chars Base.Sx Run.Codec.
-From BP Require Import Run.RunMonth Run.RunSplitter.
+From BP Require Import Run.RunMonth Run.RunSplitter Run.RunEntry Run.RunLibrary Run.RunSortFields Run.RunSortBlocks.
 Import ListNotations.
 Local Open Scope Z_scope.
 
@@ -16,6 +16,10 @@ Definition run_case (x : sx) : sx :=
   | L (A op :: args) =>
       if op =? 1 then match args with [n] => match as_N n with Some n' => r_ok (sN (asc n')) | None => sx_err end | _ => sx_err end
       else if in_range 10 19 op then run_month op args
+      else if in_range 20 29 op then run_entry op args
+      else if in_range 30 39 op then run_library op args
+      else if in_range 40 49 op then run_sortfields op args
+      else if in_range 50 59 op then run_sortblocks op args
       else if in_range 130 149 op then run_splitter op args
       else sx_err
   | _ => sx_err
